@@ -106,7 +106,7 @@ class PowerExtractionContext(AbstractHashQueueContext):
                 return None
 
         # delta charge
-        new_val = pb - pa if pa < pb else (2**32) + pb - pa
+        new_val = pb - pa if pa <= pb else (2**32) + pb - pa
 
         # _TS_CYCLE_KEY is already in MHz cycles
         if self.power_ts == 3:
